@@ -13,7 +13,11 @@ import (
 	"os/exec"
 	"strings"
 	"sync"
+	"time"
 )
+
+// JobTimeout bounds one job of a worker.
+var JobTimeout = 20 * time.Second
 
 type worker struct {
 	cmd    *exec.Cmd
@@ -87,13 +91,33 @@ func Map(args []string, inputs []string, n int) ([]string, error) {
 				_, werr := io.WriteString(w.in, line+"\n")
 				var res string
 				var rerr error
+				timedOut := false
 				if werr == nil {
-					res, rerr = w.out.ReadString('\n')
+					// a job that does not come back (the generator spinning) is killed after the job timeout
+					type rd struct {
+						s   string
+						err error
+					}
+					ch := make(chan rd, 1)
+					wk := w
+					go func() { s, err := wk.out.ReadString('\n'); ch <- rd{s, err} }()
+					select {
+					case r := <-ch:
+						res, rerr = r.s, r.err
+					case <-time.After(JobTimeout):
+						timedOut = true
+						w.cmd.Process.Kill()
+						<-ch
+						rerr = fmt.Errorf("timeout")
+					}
 				}
 				if werr != nil || rerr != nil {
 					w.in.Close()
 					w.cmd.Wait()
 					msg := strings.TrimSpace(w.stderr.String())
+					if timedOut {
+						msg = fmt.Sprintf("TIMEOUT: no answer after %s (the job did not terminate)", JobTimeout)
+					}
 					first := msg
 					if j := strings.Index(first, "\n"); j >= 0 {
 						first = first[:j]
